@@ -84,6 +84,52 @@ theorem goFor_cons (x : α) (xs : List α) (s : σ) (body : α → σ → Ctl σ
       | .ret r => .ret r
       | .panic => .panic := rfl
 
+/-- A search loop: `for _, x := range xs { if p x { return f x } }` is `List.find?`. -/
+theorem goFor_find (p : α → Bool) (f : α → ρ) (xs : List α) (s : σ) :
+    goFor xs s (fun x s => if p x = true then (Ctl.ret (f x) : Ctl σ ρ) else Ctl.next s) =
+      match xs.find? p with
+      | some e => Ctl.ret (f e)
+      | none => Ctl.next s := by
+  induction xs with
+  | nil => rfl
+  | cons x xs ih =>
+    rw [goFor_cons]
+    by_cases h : p x = true
+    · rw [if_pos h]; simp [List.find?, h]
+    · rw [if_neg h]
+      have h' : p x = false := by simpa using h
+      simp only [List.find?, h']
+      exact ih
+
+/-- The same with predicate and result depending on the (unchanged) frame. -/
+theorem goFor_find' (p : α → σ → Bool) (f : α → σ → ρ) (xs : List α) (s : σ) :
+    goFor xs s (fun x s => if p x s = true then (Ctl.ret (f x s) : Ctl σ ρ) else Ctl.next s) =
+      match xs.find? (fun x => p x s) with
+      | some e => Ctl.ret (f e s)
+      | none => Ctl.next s := by
+  induction xs with
+  | nil => rfl
+  | cons x xs ih =>
+    rw [goFor_cons]
+    by_cases h : p x s = true
+    · rw [if_pos h]; simp [List.find?, h]
+    · rw [if_neg h]
+      have h' : p x s = false := by simpa using h
+      simp only [List.find?, h']
+      exact ih
+
+/-- A loop whose body only updates the frame is a fold. -/
+theorem goFor_fold (g : α → σ → σ) (xs : List α) (s : σ) :
+    goFor xs s (fun x s => (Ctl.next (g x s) : Ctl σ ρ)) = Ctl.next (xs.foldl (fun s x => g x s) s) := by
+  induction xs generalizing s with
+  | nil => rfl
+  | cons x xs ih => rw [goFor_cons]; exact ih _
+
+/-- `if c then next a else next b` is `next (if c then a else b)` -/
+theorem ite_next (c : Prop) [Decidable c] (a b : σ) :
+    (if c then (Ctl.next a : Ctl σ ρ) else Ctl.next b) = Ctl.next (if c then a else b) := by
+  split <;> rfl
+
 /-- Dereference of a Go pointer modelled as `Option`; only used after a nil guard. -/
 @[inline] def deref [Inhabited α] (p : Option α) : α := p.getD default
 
